@@ -40,9 +40,13 @@ def variants(text, path, gz_path, crlf_path):
         return _up((n, s) for n, s in gb.rich_parser(src, **kw))
 
     def old():
-        with warnings.catch_warnings():
-            warnings.simplefilter("ignore")
+        # the deprecation notice of this parser is printed through warnings.showwarning whatever the filters are
+        show = warnings.showwarning
+        warnings.showwarning = lambda *a, **k: None
+        try:
             return _up((r["locus"], r["sequence"]) for r in gb.MinimalGenbankParser(text.splitlines()))
+        finally:
+            warnings.showwarning = show
 
     def textio():
         with open(path, "rt") as fh:
